@@ -612,6 +612,8 @@ def bounded(rep, tier):
 
 
 def check(rep, tier):
+    from vlib import statecensus
+    statecensus.obligations(rep, 'C10', 'planner')
     rep.dropped = 'method bodies read with ast.parse; nested callback executed as a closure'
     rep.assume('str.lower is an idempotent function (uninterpreted)', 'planner.databases holds lower-cased names (C10.init)',
                'routing over table positions relies on query_traversal (C13 findings inherited)')
